@@ -314,6 +314,7 @@ class Linker:
         for mem in layout.memories:
             image = Image(mem.name, mem.location)
             current_address = mem.location
+            requested_alignment = 1
             for memory_input in mem.inputs:
                 if isinstance(memory_input, Section):
                     section = self.dst.get_section(
@@ -366,8 +367,20 @@ class Linker:
                 elif isinstance(memory_input, Align):
                     while (current_address % memory_input.alignment) != 0:
                         current_address += 1
+                    requested_alignment = max(
+                        requested_alignment, memory_input.alignment
+                    )
                 else:  # pragma: no cover
                     raise NotImplementedError(str(memory_input))
+
+                if not isinstance(memory_input, Align):
+                    # Make sure relaxation keeps the requested alignment of
+                    # what was placed behind an align directive:
+                    if requested_alignment > 1:
+                        section.aligned_points.append(
+                            (0, requested_alignment)
+                        )
+                    requested_alignment = 1
 
             # Check that the memory fits!
             if image.size > mem.size:
